@@ -12,6 +12,7 @@ import numpy as np
 
 from . import probes
 from .common import scribble, digest
+from . import interp
 from .replay_poplayout import build, relabel, features as pl_features
 
 chi = probes.chi
@@ -224,6 +225,32 @@ def replay_case(arg):
                 if not np.allclose(np.asarray(t['Estimate'], dtype=float), x0[run - 1], rtol=0, atol=0, equal_nan=True):
                     fail('ResultTable', 'estimates', dict(run=run))
                     break
+                # ... and with the score of THAT run: the log-posterior at the run's estimate
+                with warnings.catch_warnings():
+                    warnings.simplefilter('ignore')
+                    sc_exp = float(post(x0[run - 1].copy()))
+                sc_got = np.asarray(t['Score'], dtype=float)
+                if not (len(set(sc_got.tolist())) <= 1 and (interp.close(sc_got[0], sc_exp) or
+                                                              (not np.isfinite(sc_exp) and not np.isfinite(sc_got[0])))):
+                    fail('ResultTable', 'score', dict(run=run, got=sc_got[:2].tolist(), expected=sc_exp))
+                    break
+        # the same two runs searched in a TRANSFORMED space (every parameter scaled): starting points and estimates are
+        # reported in the parameter space, under the same labels
+        with warnings.catch_warnings():
+            warnings.simplefilter('ignore')
+            oct_ = chi.OptimisationController(post, seed=7)
+            oct_.set_n_runs(2)
+            oct_.set_parallel_evaluation(False)
+            oct_.set_optimiser(StubOptimiser)
+            oct_.set_transform(pints.ScalingTransformation(1.0 / (2.0 + np.arange(n))))
+            tt = oct_.run(n_max_iterations=1)
+        for run in (1, 2):
+            t = tt[tt['Run'] == run]
+            if list(t['Parameter']) != rec['names'] or len(t) != n or \
+                    not np.allclose(np.asarray(t['Estimate'], dtype=float), x0[run - 1], rtol=1e-12, atol=1e-12, equal_nan=True):
+                fail('ResultTable', 'estimates_with_a_transform', dict(run=run, got=np.asarray(t['Estimate'], dtype=float)[:4].tolist(),
+                                                                       expected=x0[run - 1][:4].tolist()))
+                break
         cnt['evaluations'] = cnt.get('evaluations', 0) + 1
         # a run that BREAKS after a run that succeeded: its rows carry its own run number and NaN estimates / score
         # (documented), not the numbers of the run before it
